@@ -297,7 +297,7 @@ func (m *mux) pipeline(ctx context.Context, cmd Completed) (resp RedisResult) {
 	slot := slotfn(len(m.muxwires), cmd.Slot(), cmd.NoReply())
 	wire := m.pipe(ctx, slot)
 	if resp = wire.Do(ctx, cmd); isBroken(resp.NonRedisError(), wire) {
-		m.muxwires[slot].wire.CompareAndSwap(wire, m.init)
+		m.reset(slot, wire)
 	}
 	return resp
 }
@@ -308,7 +308,7 @@ func (m *mux) pipelineMulti(ctx context.Context, cmd []Completed) (resp *redisre
 	resp = wire.DoMulti(ctx, cmd...)
 	for _, r := range resp.s {
 		if isBroken(r.NonRedisError(), wire) {
-			m.muxwires[slot].wire.CompareAndSwap(wire, m.init)
+			m.reset(slot, wire)
 			return resp
 		}
 	}
@@ -320,7 +320,7 @@ func (m *mux) DoCache(ctx context.Context, cmd Cacheable, ttl time.Duration) Red
 	wire := m.pipe(ctx, slot)
 	resp := wire.DoCache(ctx, cmd, ttl)
 	if isBroken(resp.NonRedisError(), wire) {
-		m.muxwires[slot].wire.CompareAndSwap(wire, m.init)
+		m.reset(slot, wire)
 	}
 	return resp
 }
@@ -379,7 +379,7 @@ func (m *mux) doMultiCache(ctx context.Context, slot uint16, multi []CacheableTT
 	resps = wire.DoMultiCache(ctx, multi...)
 	for _, r := range resps.s {
 		if isBroken(r.NonRedisError(), wire) {
-			m.muxwires[slot].wire.CompareAndSwap(wire, m.init)
+			m.reset(slot, wire)
 			return resps
 		}
 	}
@@ -391,7 +391,7 @@ func (m *mux) Receive(ctx context.Context, subscribe Completed, fn func(message 
 	wire := m.pipe(ctx, slot)
 	err := wire.Receive(ctx, subscribe, fn)
 	if isBroken(err, wire) {
-		m.muxwires[slot].wire.CompareAndSwap(wire, m.init)
+		m.reset(slot, wire)
 	}
 	return err
 }
@@ -426,6 +426,14 @@ func (m *mux) Close() {
 
 func (m *mux) Addr() string {
 	return m.dst
+}
+
+// reset lets the slot dial again after its wire broke. The dead wire is only stored by Close and stays:
+// whatever a call on it returns (its context error, for one), a closed mux is not reopened.
+func (m *mux) reset(slot uint16, w wire) {
+	if w != m.dead {
+		m.muxwires[slot].wire.CompareAndSwap(w, m.init)
+	}
 }
 
 func isBroken(err error, w wire) bool {
